@@ -1,5 +1,264 @@
-import Operon.Lemmas.Mito
+import Operon.Lemmas.C01
 import Operon.Gen.MitoFacts
+/-!
+# C01 — the safe evaluator is confined to its allow-list, total, and resource-bounded
+
+Property theorems only.  Model: `Operon/Model/Mito.lean` (`walk` mirrors `Mitochondria._compute_node`,
+`metabolize` the entry point), tied to `operon_ai/organelles/mitochondria.py` by (i) the extractor E1, which
+regenerates `Operon/Gen/MitoFacts.lean` on every run — the four tables by reflection, the set of handled
+`ast.expr` classes by probing the real walker with every class of the running interpreter, the handler placement
+by parsing — and (ii) the differential correspondence of `harness/vf/props/c01.py` (tracer objects; identical
+protocol lines to the real code and to the driver; full interaction traces compared).
+
+All theorems quantify over every expression tree (`Expr`, including `other k cs` for EVERY node-class name `k`),
+every table content `T` unless stated for the extracted tables, and every environment `env` (every behaviour of
+operators, functions, `bool()` and tools, including raising).
+-/
 namespace Operon.Mito
-theorem c01_placeholder : True := trivial
+open R
+
+/-! ### The property text, as data -/
+
+/-- the operators the engine may apply: arithmetic, sign, comparison -/
+def approvedPrims : List Prim :=
+  [.add, .sub, .mul, .truediv, .floordiv, .mod, .pow, .neg, .pos, .eq, .ne, .lt, .le, .gt, .ge]
+
+/-- what an allow-listed name may be bound to: a numeric constant, a value-only builtin, a numeric `math` function -/
+def approvedBindings : List String :=
+  ["const:float", "const:int",
+   "builtins.abs", "builtins.round", "builtins.min", "builtins.max", "builtins.sum", "builtins.len", "builtins.int",
+   "builtins.float", "builtins.bool", "builtins.pow", "builtins.divmod",
+   "math.sqrt", "math.sin", "math.cos", "math.tan", "math.asin", "math.acos", "math.atan", "math.atan2",
+   "math.sinh", "math.cosh", "math.tanh", "math.asinh", "math.acosh", "math.atanh", "math.log", "math.log10",
+   "math.log2", "math.log1p", "math.exp", "math.expm1", "math.pow", "math.ceil", "math.floor", "math.trunc",
+   "math.factorial", "math.gcd", "math.lcm", "math.degrees", "math.radians", "math.fabs", "math.isqrt",
+   "math.hypot", "math.copysign", "math.fmod", "math.isnan", "math.isinf", "math.isfinite", "math.erf",
+   "math.erfc", "math.gamma", "math.lgamma", "math.cbrt", "math.exp2", "math.comb", "math.perm", "math.dist",
+   "math.fsum", "math.prod", "math.remainder"]
+
+/-- the node classes that may be evaluated — exactly the constructors of `Expr` other than `other` -/
+def allowedKinds : List String :=
+  ["BinOp", "BoolOp", "Call", "Compare", "Constant", "IfExp", "List", "Name", "Tuple", "UnaryOp"]
+
+/-- the operator classes the model's enumerations `BinK` / `UnK` / `CmpK` / `BoolK` cover -/
+def knownOperatorClasses : List String :=
+  ["Add", "Sub", "Mult", "Div", "FloorDiv", "Mod", "Pow", "LShift", "RShift", "BitOr", "BitXor", "BitAnd", "MatMult",
+   "USub", "UAdd", "Not", "Invert", "Eq", "NotEq", "Lt", "LtE", "Gt", "GtE", "Is", "IsNot", "In", "NotIn", "And", "Or"]
+
+/-! ### Confinement -/
+
+/-- The allow-list read from the CURRENT source is inside the approved sets: every operator-table entry is an
+    approved `operator.*` function, every name is bound to a numeric constant or an approved pure function, no table
+    key is unknown; the classes the real walker handles (found by probing it with every `ast.expr` class of the
+    running interpreter) are exactly the ten allowed ones, every other class ends in the final raise, a call needs
+    a plain-name callee, and every operator class of the interpreter is one the model knows.  By `decide` over the
+    regenerated facts (complete finite tables: a proof, not a sample). -/
+theorem c01_tables_confined :
+    (∀ p ∈ primsOf Gen.tables, p ∈ approvedPrims) ∧
+    (∀ kv ∈ Gen.fnKinds, kv.2 ∈ approvedBindings) ∧
+    Gen.tables.names = Gen.fnKinds.map (·.1) ∧
+    Gen.unknownTableKeys = [] ∧
+    Gen.handledKinds = allowedKinds ∧
+    (∀ k ∈ allowedKinds, k ∈ Gen.exprClasses) ∧
+    Gen.finalRaise = true ∧ Gen.callNeedsNameCallee = true ∧
+    (∀ c ∈ Gen.operatorClasses ++ Gen.unaryopClasses ++ Gen.cmpopClasses ++ Gen.boolopClasses,
+        c ∈ knownOperatorClasses) := by
+  decide
+
+/-- Every interaction of the walker with its environment is allowed, for every tree, every table content and every
+    environment: a lookup of a table-listed name, an application of a primitive found in the operator tables,
+    `bool()` of a value, or a call of the value bound to a table-listed name.  (Attribute access, subscripting,
+    lambda, comprehension, f-string, import are not even expressible as an action; that this is not vacuous is the
+    content of `c01_tables_confined`, `c01_refused_node_fails` and `c01_forbidden_in_strict_position_fails`.) -/
+theorem c01_walk_confined (T : Tables) (env : Env) (e : Expr) : ∀ a ∈ (walk T env e).1, Allowed T env a :=
+  walk_confined T env e
+
+/-- With the tables of the current source: every action is a lookup of one of the extracted names, an APPROVED
+    operator, `bool()`, or a call of the binding of one of the extracted names (all approved pure functions). -/
+theorem c01_engine_confined (env : Env) (e : Expr) (a : Act) (ha : a ∈ (walk Gen.tables env e).1) :
+    match a with
+    | .lookup n => n ∈ Gen.tables.names
+    | .prim p _ => p ∈ approvedPrims
+    | .truthy _ => True
+    | .apply f _ _ => ∃ n, n ∈ Gen.tables.names ∧ f = env.lookup n
+    | .tool _ _ _ => False := by
+  have h := walk_confined Gen.tables env e a ha
+  cases a with
+  | lookup n => exact h
+  | prim p args => exact c01_tables_confined.1 p h
+  | truthy n => trivial
+  | apply f as ks => exact h
+  | tool n as ks => exact h
+
+/-- A node of ANY other class (whatever its name and children) is refused on the spot: failure, nothing executed. -/
+theorem c01_refused_node_fails (T : Tables) (env : Env) (k : String) (cs : List Expr) :
+    walk T env (.other k cs) = ([], .error "ValueError: unsupported expression type") := by
+  simp [walk, R.fail]
+
+/-- A refused node in a strict position — operand, argument, keyword value before any `**`, list/tuple element,
+    left side or first comparator of a comparison, first operand of and/or, test of a conditional, at any depth —
+    makes the whole evaluation fail. -/
+theorem c01_forbidden_in_strict_position_fails (T : Tables) (env : Env) (e : Expr) (k : String) (cs : List Expr)
+    (h : Expr.other k cs ∈ e.strictSub) : (walk T env e).failed :=
+  strict_fails T env e _ h ⟨_, by rw [c01_refused_node_fails]⟩
+
+/-- More generally an error at a strictly evaluated sub-expression is never swallowed. -/
+theorem c01_errors_propagate (T : Tables) (env : Env) (e n : Expr) (h : n ∈ e.strictSub)
+    (hn : (walk T env n).failed) : (walk T env e).failed :=
+  strict_fails T env e n h hn
+
+/-- A call whose callee is not a plain name (attribute, subscript, lambda, another call, ...) fails without
+    evaluating anything. -/
+theorem c01_computed_callee_fails (T : Tables) (env : Env) (f : Expr) (args kv : List Expr)
+    (kn : List (Option String)) (hf : ∀ n, f ≠ .name n) :
+    (walk T env (.call f args kn kv)).failed ∧ (walk T env (.call f args kn kv)).1 = [] := by
+  unfold walk
+  cases f <;> first | exact absurd rfl (hf _) | exact ⟨failed_fail _, rfl⟩
+
+/-- A name outside the table is never looked up: failure, nothing executed (as a variable and as a callee). -/
+theorem c01_unlisted_name_fails (T : Tables) (env : Env) (n : String) (hn : n ∉ T.names) (args kv : List Expr)
+    (kn : List (Option String)) :
+    walk T env (.name n) = ([], .error "ValueError: unknown variable") ∧
+    walk T env (.call (.name n) args kn kv) = ([], .error "ValueError: unknown function") := by
+  constructor <;> simp [walk, hn, R.fail]
+
+/-- The tool pathway: everything before the tool body is walker-confined, and at most ONE tool body runs — the last
+    action — and only when the expression is a call whose callee is the plain name of a registered tool that
+    passed the capability check. -/
+theorem c01_tool_path (T : Tables) (env : Env) (tools : List ToolReg) (allowed : Option (List String)) (e : Expr) :
+    ∃ pre, (∀ a ∈ pre, Allowed T env a) ∧
+      ((toolPath T env tools allowed e).1 = pre ∨
+       ∃ tn args kn kv t as ks, e = .call (.name tn) args kn kv ∧ findTool tools tn = some t ∧
+         capsOk allowed t = true ∧ (toolPath T env tools allowed e).1 = pre ++ [.tool tn as ks]) := by
+  unfold toolPath
+  split
+  · rename_i tn args kn kv
+    split
+    · exact ⟨[], by simp, Or.inl rfl⟩
+    · rename_i t ht
+      split
+      · rename_i hcap
+        have h1 := walkList_confined T env args
+        have h2 := walkToolKws_confined T env kn kv
+        rcases hw : walkList T env args with ⟨t1, r1⟩
+        rw [hw] at h1
+        cases r1 with
+        | error er => exact ⟨t1, h1, Or.inl rfl⟩
+        | ok as =>
+          rcases hk : walkToolKws T env kn kv with ⟨t2, r2⟩
+          rw [hk] at h2
+          cases r2 with
+          | error er =>
+            refine ⟨t1 ++ t2, ?_, Or.inl (by simp [R.bind])⟩
+            intro a ha; rcases List.mem_append.mp ha with h | h
+            · exact h1 a h
+            · exact h2 a h
+          | ok ks =>
+            refine ⟨t1 ++ t2, ?_, Or.inr ⟨tn, args, kn, kv, t, as, ks, rfl, ht, hcap, by simp [R.bind, R.act]⟩⟩
+            intro a ha; rcases List.mem_append.mp ha with h | h
+            · exact h1 a h
+            · exact h2 a h
+      · exact ⟨[], by simp, Or.inl rfl⟩
+  · exact ⟨[], by simp, Or.inl rfl⟩
+  · exact ⟨[], by simp, Or.inl rfl⟩
+
+/-- Over-long input and a latched engine execute nothing at all and report failure. -/
+theorem c01_guards_run_nothing (T : Tables) (env : Env) (cfg : Cfg) (latched : Bool) (d : Pathway) (inp : Inp)
+    (forced : Option Pathway) (h : inp.len > cfg.maxLen ∨ latched = true) :
+    metabolize T env cfg latched d inp forced = ([], .result false none false forced) := by
+  unfold metabolize
+  rcases h with h | h
+  · simp [h]
+  · subst h; split <;> rfl
+
+/-! ### Totality -/
+
+/-- With the print and the dispatch inside the handler, `metabolize` returns a result — never raises — for every
+    configuration, every input (parsed or not), every pathway (forced or detected), every table content and every
+    environment behaviour. -/
+theorem c01_total (T : Tables) (env : Env) (cfg : Cfg) (hp : cfg.printInTry = true) (hd : cfg.dispatchInTry = true)
+    (latched : Bool) (d : Pathway) (inp : Inp) (forced : Option Pathway) :
+    ∃ s v r p, (metabolize T env cfg latched d inp forced).2 = .result s v r p := by
+  unfold metabolize
+  simp only [hp, hd]
+  split
+  · exact ⟨_, _, _, _, rfl⟩
+  · split
+    · exact ⟨_, _, _, _, rfl⟩
+    · simp only [Bool.not_true, Bool.and_false, Bool.false_eq_true, if_false]
+      split
+      · exact ⟨_, _, _, _, rfl⟩
+      · split
+        · split <;> exact ⟨_, _, _, _, rfl⟩
+        · exact ⟨_, _, _, _, rfl⟩
+
+/-- The current source has both inside the handler (extractor E1), so the engine as it stands never raises. -/
+theorem c01_never_raises_current_source (T : Tables) (env : Env) (cfg : Cfg) (hp : cfg.printInTry = Gen.printInTry)
+    (hd : cfg.dispatchInTry = Gen.dispatchInTry) (latched : Bool) (d : Pathway) (inp : Inp) (forced : Option Pathway) :
+    (metabolize T env cfg latched d inp forced).2 ≠ .raised := by
+  obtain ⟨s, v, r, p, h⟩ := c01_total T env cfg (by rw [hp]; decide) (by rw [hd]; decide) latched d inp forced
+  rw [h]; exact fun h => nomatch h
+
+/-- The pre-fix shape is expressible and does raise: with the print outside the handler a lone surrogate on a
+    non-silent engine escapes (the defect repaired by commit c4da247). -/
+theorem c01_print_outside_try_raises_witness :
+    (metabolize ⟨[], [], [], [], []⟩ ⟨fun _ => .h 0, fun _ _ => .error "", fun _ => .error "", fun _ _ _ => .error "",
+        fun _ _ _ => .error ""⟩ ⟨10000, false, false, [], none, false, true⟩ false .glycolysis
+        ⟨8, none, none, true⟩ none).2 = .raised := by
+  rfl
+
+/-! ### Resource clause -/
+
+/-- Structural work is linear: the number of environment interactions (operator applications, calls, lookups,
+    truth tests) is at most three per AST node, for every tree and every environment. -/
+theorem c01_work_linear (T : Tables) (env : Env) (e : Expr) : (walk T env e).1.length + 2 ≤ 3 * e.nodes := by
+  have := walk_len T env e; have := nodes_pos e; omega
+
+/-- PARTIAL (the resource clause).  For integer arithmetic without `**` the value that CPython has to materialise
+    stays below `2 ^ budget`, where `budget` is the number of bits of the literals plus one per addition — linear in
+    the size of the text.  What is missing for the full clause: (i) powers, factorial and sequence repetition are
+    outside this class and genuinely unbounded (witness below, open finding C01-timeout-unenforced — `timeout_seconds`
+    is never enforced); (ii) wall-clock time and memory of CPython primitives are not modelled at all.
+    -- FULL (false on current tree): ∀ expression, metabolize returns within a bound governed by `timeout_seconds`. -/
+theorem c01_bounded_partial (e : IExpr) (h : e.powFree = true) : e.val < 2 ^ e.budget :=
+  val_lt_budget e h
+
+/-- The 7-character expression `9**9**9` is outside the bounded class and its value needs more than 387 million
+    bits, while its budget (what a pow-free expression of the same literals could reach) is 12. -/
+theorem c01_pow_tower_unbounded_witness :
+    let tower := IExpr.pow (.lit 9) (.pow (.lit 9) (.lit 9))
+    tower.powFree = false ∧ tower.budget = 12 ∧ 2 ^ 387420489 ≤ tower.val := by
+  refine ⟨rfl, by decide, ?_⟩
+  show 2 ^ 387420489 ≤ 9 ^ (9 ^ 9)
+  have h : (9 : Nat) ^ 9 = 387420489 := by decide
+  rw [h]
+  exact Nat.pow_le_pow_left (by omega) _
+
+/-! ### Non-vacuity -/
+
+private def envAll : Env :=
+  ⟨fun _ => .h 1, fun _ _ => .ok (.h 2), fun _ => .ok true, fun _ _ _ => .ok (.h 3), fun _ _ _ => .ok (.h 4)⟩
+
+/-- `c01_forbidden_in_strict_position_fails`: `abs((1).real)` — an Attribute node as a call argument -/
+example : Expr.other "Attribute" [.const (.h 1)] ∈
+    (Expr.call (.name "abs") [.other "Attribute" [.const (.h 1)]] [] []).strictSub := by
+  simp [Expr.strictSub, strictList, strictKws]
+
+/-- `c01_total` / `c01_never_raises_current_source`: a configuration with both flags as extracted -/
+example : (⟨10000, false, false, [], none, Gen.printInTry, Gen.dispatchInTry⟩ : Cfg).printInTry = true := by decide
+
+/-- `c01_tool_path` second alternative is reachable: a registered tool runs exactly once, last -/
+example : (toolPath Gen.tables envAll [⟨"t", []⟩] none (.call (.name "t") [.name "pi"] [] [])).1
+    = [.lookup "pi", .tool "t" [.h 1] []] := by
+  rfl
+
+/-- `c01_guards_run_nothing`: an over-long input -/
+example : (10001 : Nat) > (⟨10000, true, false, [], none, true, true⟩ : Cfg).maxLen := by decide
+
+/-- `c01_bounded_partial`: `12 * 34 + 5` is pow-free -/
+example : (IExpr.add (.mul (.lit 12) (.lit 34)) (.lit 5)).powFree = true := by decide
+
+/-- `c01_unlisted_name_fails`: `__import__` is not in the extracted table -/
+example : "__import__" ∉ Gen.tables.names := by decide
+
 end Operon.Mito
